@@ -4,6 +4,7 @@ package gen
 
 import (
 	"time"
+	_ "time/tzdata" // real zone rules without depending on the host's zoneinfo
 )
 
 type RNG struct{ s uint64 }
@@ -42,7 +43,36 @@ func (r *RNG) Bytes(n int) []byte {
 func Pick[T any](r *RNG, xs []T) T { return xs[r.Intn(len(xs))] }
 
 // SecretLens: emphasis lengths from DESIGN §6.
-var SecretLens = []int{0, 1, 2, 3, 4, 5, 10, 19, 20, 21, 31, 32, 33, 63, 64, 65, 127, 128, 129, 200, 256}
+var SecretLens = []int{0, 1, 2, 3, 4, 5, 10, 19, 20, 21, 25, 31, 32, 33, 40, 63, 64, 65, 80, 127, 128, 129, 200, 256}
+
+// AmbiguousKey returns key bytes whose base32 spelling also reads as text in another encoding
+// (only hex digits A-F/2-7, only decimal digits 2-7, one repeated letter): n must be a multiple of 5.
+func AmbiguousKey(r *RNG, n int) []byte {
+	alpha := Pick(r, []string{"ABCDEF234567", "234567", "A", "7", "F2", "DEADBEEFCAFE2345"})
+	// build the base32 text first, then decode it (n bytes <-> 8n/5 characters)
+	const b32 = "ABCDEFGHIJKLMNOPQRSTUVWXYZ234567"
+	chars := n / 5 * 8
+	out := make([]byte, 0, n)
+	var acc uint64
+	bits := 0
+	for i := 0; i < chars; i++ {
+		c := alpha[r.Intn(len(alpha))]
+		idx := 0
+		for j := 0; j < 32; j++ {
+			if b32[j] == c {
+				idx = j
+			}
+		}
+		acc = acc<<5 | uint64(idx)
+		bits += 5
+		for bits >= 8 {
+			bits -= 8
+			out = append(out, byte(acc>>uint(bits)))
+			acc &= (1 << uint(bits)) - 1
+		}
+	}
+	return out
+}
 
 // SecretBytes returns key material of the given length in one of three content classes.
 func SecretBytes(r *RNG, n int, class int) []byte {
@@ -123,6 +153,39 @@ var zones = []*time.Location{
 	time.FixedZone("p14", 14*3600), time.FixedZone("m12", -12*3600), time.FixedZone("npt", 5*3600+45*60),
 }
 
+// NFixedZones is the number of zones without daylight-saving rules at the head of the zone list.
+const NFixedZones = 5
+
+// Transitions holds unix seconds at which some real zone changes its UTC offset (daylight-saving switches,
+// including the repeated hour when clocks go back), found by scanning 1996..2037.
+var Transitions []int64
+
+func init() {
+	for _, name := range []string{"America/New_York", "Europe/Berlin", "Australia/Lord_Howe", "Pacific/Apia", "America/St_Johns", "Asia/Tehran"} {
+		loc, err := time.LoadLocation(name)
+		if err != nil {
+			continue
+		}
+		zones = append(zones, loc)
+		_, prev := time.Unix(820454400, 0).In(loc).Zone()
+		for u := int64(820454400); u < 2145916800; u += 3600 {
+			_, off := time.Unix(u, 0).In(loc).Zone()
+			if off != prev {
+				// refine to the half hour
+				if _, o2 := time.Unix(u-1800, 0).In(loc).Zone(); o2 == off {
+					Transitions = append(Transitions, u-1800)
+				} else {
+					Transitions = append(Transitions, u)
+				}
+				prev = off
+			}
+		}
+	}
+}
+
+// NZones is the number of locations InstantSpec.Zone may index.
+func NZones() int { return len(zones) }
+
 // InstantSpec describes a time.Time value completely enough to rebuild it.
 type InstantSpec struct {
 	Unix int64 `json:"unix"`
@@ -133,6 +196,15 @@ type InstantSpec struct {
 
 func (r *RNG) InstantSpec(unix int64) InstantSpec {
 	return InstantSpec{Unix: unix, Ns: Pick(r, []int64{0, 1, 999999999, int64(r.Intn(1000000000))}), Zone: r.Intn(len(zones)), Mono: r.Intn(3) == 0}
+}
+
+// TransitionInstant returns an instant within +-2 h of a daylight-saving switch of some real zone, rendered in a real zone.
+func (r *RNG) TransitionInstant() InstantSpec {
+	if len(Transitions) == 0 || len(zones) <= NFixedZones {
+		return r.InstantSpec(1730613600)
+	}
+	u := Pick(r, Transitions) + int64(r.Intn(4*3600)) - 2*3600
+	return InstantSpec{Unix: u, Ns: int64(r.Intn(1000000000)), Zone: NFixedZones + r.Intn(len(zones)-NFixedZones)}
 }
 
 // Time builds the time.Time: arbitrary nanoseconds and location, and (when Mono
